@@ -342,44 +342,56 @@ def pda_moves(P):
                 out.append((p, a, 'pop', u, m)); out.append((m, E, 'push', v, q))
     return out
 def pda_accepts(P, w):
-    """exact: is there an accepting computation (acceptance by final state, any stack)?  Saturation over balanced
-    computations (succ[u] = nodes reachable from u with the stack never going below its height at u and ending at
-    that height) plus pushes that are never popped; no bound on stack height or on the number of epsilon moves."""
+    """exact: is there an accepting computation (acceptance by final state, any stack)?  CFL-reachability over nodes
+    (state, input position): B[u] = nodes reachable from u by a computation that never pops below the stack height at u
+    and ends at that height (summaries, computed on demand for the start node and for push targets); a configuration is
+    reachable iff it is reached through summaries and pushes that are never popped.  No bound on stack height or on the
+    number of epsilon moves."""
     E = P.epsilon; mv = pda_moves(P); n = len(w)
-    def adv(a, i):
-        if a == E: return i
-        return i + 1 if i < n and w[i] == a else None
     by_src = {}
     for m in mv: by_src.setdefault(m[0], []).append(m)
-    allstates = set(P.Q) | {m[0] for m in mv} | {m[4] for m in mv}
-    V = [(q, i) for q in allstates for i in range(n + 1)]
-    succ = {v: {v} for v in V}
-    changed = True
-    while changed:
-        changed = False
-        for u in V:
-            for v in list(succ[u]):
-                for (p, a, kind, x, q) in by_src.get(v[0], []):
-                    j = adv(a, v[1])
-                    if j is None: continue
-                    if kind == 'noop':
-                        if (q, j) not in succ[u]: succ[u].add((q, j)); changed = True
-                    elif kind == 'push':
-                        for s in list(succ[(q, j)]):
-                            for (p2, a2, kind2, x2, t) in by_src.get(s[0], []):
-                                if kind2 == 'pop' and x2 == x:
-                                    k2 = adv(a2, s[1])
-                                    if k2 is not None and (t, k2) not in succ[u]: succ[u].add((t, k2)); changed = True
-    A = {(P.q0, 0)}; todo = [(P.q0, 0)]
+    def out(v):
+        q, i = v
+        for (p, a, kind, x, t) in by_src.get(q, ()):
+            if a == E: yield kind, x, (t, i)
+            elif i < n and w[i] == a: yield kind, x, (t, i + 1)
+    B = {}; callers = {}; work = []
+    def entry(u):
+        if u not in B:
+            B[u] = set(); add(u, u)
+    def add(u, v):
+        if v not in B[u]:
+            B[u].add(v); work.append((u, v))
+    start = (P.q0, 0); entry(start)
+    while work:
+        u, v = work.pop()
+        # (1) extend the summary u ->* v by the moves leaving v
+        for kind, x, v1 in out(v):
+            if kind == 'noop': add(u, v1)
+            elif kind == 'push':
+                entry(v1); callers.setdefault(v1, set()).add((u, x))
+                for v2 in list(B[v1]):
+                    for k2, x2, v3 in out(v2):
+                        if k2 == 'pop' and x2 == x: add(u, v3)
+        # (2) v is a new end of the summary of entry u: resume the callers of u
+        for (u0, x) in list(callers.get(u, ())):
+            for k2, x2, v3 in out(v):
+                if k2 == 'pop' and x2 == x: add(u0, v3)
+    # reachable nodes: summaries from the start, plus pushes that are never popped (their targets are entries)
+    A = set(); todo = [start]
     while todo:
-        v = todo.pop()
-        nxt = set(succ[v])
-        for (p, a, kind, x, q) in by_src.get(v[0], []):
-            j = adv(a, v[1])
-            if j is not None and kind == 'push': nxt.add((q, j))
-        for y in nxt:
-            if y not in A: A.add(y); todo.append(y)
-    return any((f, n) in A for f in P.F)
+        u = todo.pop()
+        if u in A: continue
+        A.add(u)
+        for v in B.get(u, ()):
+            if v not in A: todo.append(v) if v in B else A.add(v)
+            for kind, x, v1 in out(v):
+                if kind == 'push' and v1 not in A: todo.append(v1)
+    reach = set()
+    for u in A:
+        reach.add(u)
+        for v in B.get(u, ()): reach.add(v)
+    return any((f, n) in reach for f in P.F)
 def pda_lang(P, n): return {w for w in words(P.Sigma, n) if pda_accepts(P, w)}
 def pda_step_ok(P, c1, a, c2):
     """is (q1, stack1) --a--> (q2, stack2) one transition of P (a may be epsilon)?  stacks are lists, top at the end"""
